@@ -12,7 +12,7 @@ from . import c01, c02
 from .toposort_rules import check_toposort
 
 PROP = "C20"
-FLOORS = {"C20.R1": 25, "C20.R2": 25, "C20.R3": 30, "C20.R4": 4, "C20.R5": 6, "C20.R6": 3, "C20.R7": 1, "C20.R8": 4, "C20.R9": 10}
+FLOORS = {"C20.R1": 25, "C20.R2": 25, "C20.R3": 30, "C20.R4": 4, "C20.R5": 6, "C20.R6": 3, "C20.R7": 1, "C20.R8": 4, "C20.R9": 10, "C20.R10": 1}
 META = {
     "explanation": "Build independence: Cython runs __cinit__ base-first, the pure-Python simulation in BaseRef.__init__ runs them "
                    "derived-first, so along every MRO each field is assigned by exactly one __cinit__, no __cinit__ reads a field "
@@ -484,7 +484,64 @@ def _unordered(col, rule="C20.R5"):
     col.count("set_iterations_inventoried", n_loops)
 
 
+SEMANTIC_DIRECTIVES = ("cdivision", "cdivision_warnings", "boundscheck", "wraparound", "overflowcheck", "nonecheck", "initializedcheck",
+                       "cpow", "c_api_binop_methods", "always_allow_keywords")
+
+
+def _no_semantic_directives(col, rule="C20.R10"):
+    """Cython directives that change what an operation *means* (C division does not raise and truncates towards zero, unchecked indexing
+    does not wrap or raise, ...) make the compiled build compute something else than the pure-Python one and than Python itself"""
+    repo = col.repo
+    m = repo.module("refs")
+    found = []
+    for n in ast.walk(m.tree):
+        decs = getattr(n, "decorator_list", None) or []
+        for d in decs:
+            nm = A.dotted(d.func) if isinstance(d, ast.Call) else A.dotted(d)
+            if nm and nm.split(".")[-1] in SEMANTIC_DIRECTIVES:
+                off = isinstance(d, ast.Call) and d.args and isinstance(d.args[0], ast.Constant)
+                val = d.args[0].value if off else True
+                pythonic = {"cdivision": False, "boundscheck": True, "wraparound": True, "overflowcheck": True, "nonecheck": True,
+                            "initializedcheck": True, "cpow": False}.get(nm.split(".")[-1])
+                if pythonic is None or val != pythonic:
+                    found.append((m.loc(n), f"@{nm}({val})"))
+        if isinstance(n, ast.With):
+            for it in n.items:
+                e = it.context_expr
+                nm = A.dotted(e.func) if isinstance(e, ast.Call) else None
+                if nm and nm.split(".")[-1] in SEMANTIC_DIRECTIVES:
+                    found.append((m.loc(n), f"with {A.src(e)}"))
+    # module-level `# cython: cdivision=True` header comments
+    for i, line in enumerate(m.source.splitlines()[:30]):
+        if line.strip().startswith("#") and "cython:" in line:
+            for dname in SEMANTIC_DIRECTIVES:
+                if dname in line:
+                    found.append((f"{m.rel}:{i + 1}", line.strip()[:60]))
+    col.add(rule, "refs#no-directive-changing-arithmetic-or-indexing", not found, found[0][0] if found else m.rel,
+            "no Cython directive replaces Python's semantics of division, indexing or overflow in the compiled reference classes", str(found[:3]))
+
+
+def _copy_gathers_before_loading(col, rule="C20.R5"):
+    """copy_expr_from walks the source's tasks in a schedule order that comes from set iteration (hash seed, hash width).  The definitions are
+    gathered completely *before* any of them is registered: handing the generator itself to load() interleaves the walk with the
+    registrations, and a failure half-way leaves a seed-dependent part of them behind"""
+    sx = sctx(col.repo, "Manager", "copy_expr_from", public=True, keep=c01.ANCHORS)
+    loads = sx.calls_some(("call", ("attr", S.SELF, "load"), S.V("a"), S.V("k")))
+    if len(loads) != 1:
+        raise AnalysisError("Manager.copy_expr_from: expected one self.load(...) -- cannot decide")
+    ev, m = loads[0]
+    src = m["a"][0] if m["a"] else dict(m["k"]).get("dump")
+    lazy = src is not None and any(S.is_call_of(a, meth="iter_expr_tasks_owner") or (a[:1] == ("acc",) and a[1] == "gen") for a in S.alts(src))
+    col.add(rule, "Manager.copy_expr_from#definitions-gathered-before-loading", not lazy, sx.loc(ev),
+            "the (target, expression) texts are collected into a list before load() registers the first of them",
+            S.show(src)[:80] if src is not None else "")
+
+
 def check(col: Collector):
+    with col.rule():
+        _no_semantic_directives(col)
+    with col.rule():
+        _copy_gathers_before_loading(col)
     with col.rule():
         _cinit_rules(col)
     with col.rule():
@@ -523,3 +580,7 @@ def check(col: Collector):
     with col.rule():
         shared(col, "C20.R9", [c06._hash_assigned],
                why="an unassigned C field reads 0 when compiled and raises AttributeError in pure Python: the two builds diverge")
+    with col.rule():
+        shared(col, "C20.R9", [c06._eq_hash_pairing], select=lambda o: "no-eq-hash-override" in o.construct,
+               why="an extension type inherits tp_hash and tp_richcompare only together: a class that defines __eq__ and aliases __hash__ in its "
+                   "body is unhashable in the compiled build only")
